@@ -1,4 +1,5 @@
 import PytezosModel.Proofs.InterpStack
+import PytezosModel.Proofs.InterpComb
 import PytezosModel.Michelson.Interp.Spec
 /-! Instructions without sub-programs: the mirror's pop/push sequences against the reference rules. -/
 namespace Interp
@@ -200,6 +201,64 @@ theorem step_CONS (hr : Spec.step env .CONS st ≠ .err) :
     · simp [Impl.step, h]
     · simp [h] at hr
 
+theorem step_PAIRN (n : Nat) (hr : Spec.step env (.PAIRN n) st ≠ .err) :
+    Impl.step env (.PAIRN n) (stk pre st) = (Spec.step env (.PAIRN n) st).map' (stk pre) := by
+  simp only [Spec.step] at hr ⊢
+  cases hq : Spec.pairN n st with
+  | none => simp [hq] at hr
+  | some p =>
+    obtain ⟨r, st'⟩ := p
+    obtain ⟨h1, h2, h3, h4⟩ := fromComb_refines n st r st' hq
+    have h1' : ¬ n < 2 := by omega
+    have h2' : ¬ st.length < n := by omega
+    simp [Impl.step, h1', pop_mk, h2', h3, h4]
+
+theorem step_UNPAIRN (n : Nat) (hr : Spec.step env (.UNPAIRN n) st ≠ .err) :
+    Impl.step env (.UNPAIRN n) (stk pre st) = (Spec.step env (.UNPAIRN n) st).map' (stk pre) := by
+  rcases st with _ | ⟨v, st⟩
+  · exact absurd rfl hr
+  simp only [Spec.step] at hr ⊢
+  cases hq : Spec.unpairN n v with
+  | none => simp [hq] at hr
+  | some xs =>
+    obtain ⟨h1, ⟨a, b, rfl⟩, h3⟩ := unpairnComb_refines n v xs hq
+    have h1' : ¬ n < 2 := by omega
+    simp only [Impl.step, h1', if_false, pop1_mk_cons, Res.bind_ok, h3, push_reversed, Res.pure_eq, map'_ok]
+
+theorem step_GETN (n : Nat) (hr : Spec.step env (.GETN n) st ≠ .err) :
+    Impl.step env (.GETN n) (stk pre st) = (Spec.step env (.GETN n) st).map' (stk pre) := by
+  rcases st with _ | ⟨v, st⟩
+  · exact absurd rfl hr
+  simp only [Spec.step] at hr ⊢
+  cases hq : Spec.getN n v with
+  | none => simp [hq] at hr
+  | some r =>
+    by_cases hn : n = 0
+    · subst hn
+      simp only [Spec.getN, Option.some.injEq] at hq
+      subst hq
+      simp [Impl.step]
+    · obtain ⟨a, b, rfl⟩ := getN_pair n v r hn hq
+      have := accessComb_refines n _ r hq
+      simp [Impl.step, hn, this]
+
+theorem step_UPDATEN (n : Nat) (hr : Spec.step env (.UPDATEN n) st ≠ .err) :
+    Impl.step env (.UPDATEN n) (stk pre st) = (Spec.step env (.UPDATEN n) st).map' (stk pre) := by
+  rcases st with _ | ⟨e, _ | ⟨v, st⟩⟩
+  · exact absurd rfl hr
+  · exact absurd rfl hr
+  simp only [Spec.step] at hr ⊢
+  cases hq : Spec.updateN n e v with
+  | none => simp [hq] at hr
+  | some r =>
+    by_cases hn : n = 0
+    · subst hn
+      simp only [Spec.updateN, Option.some.injEq] at hq
+      subst hq
+      simp [Impl.step]
+    · obtain ⟨⟨a, b, rfl⟩, h2⟩ := updateComb_refines n e v r (by omega) hq
+      simp [Impl.step, hn, h2]
+
 theorem step_SLICE (hr : Spec.step env .SLICE st ≠ .err) :
     Impl.step env .SLICE (stk pre st) = (Spec.step env .SLICE st).map' (stk pre) := by
   rcases st with _ | ⟨a, st⟩
@@ -329,5 +388,9 @@ theorem step_refines (env : Env) (i : Instr) (pre st : List Val) (hr : Spec.step
           cases Impl.bytesVals xs <;> simp_all
       all_goals simp [Spec.step] at hr
   case SLICE => exact step_SLICE env pre st hr
+  case PAIRN n => exact step_PAIRN env pre st n hr
+  case UNPAIRN n => exact step_UNPAIRN env pre st n hr
+  case GETN n => exact step_GETN env pre st n hr
+  case UPDATEN n => exact step_UPDATEN env pre st n hr
 
 end Interp
